@@ -19,7 +19,7 @@ CONSTANT KnownFindings   \* set of ids (strings) from /verif/known_findings.json
 CONSTANT Notes           \* TRUE: print NT tuples (evidence runs); FALSE: silent (model checking)
 
 NT(t) == IF Notes THEN PrintT(<<"NT">> \o t) ELSE TRUE
-Masked(id, prop, sig) == id \in KnownFindings /\ sig /\ PrintT(<<"KNOWN-FINDING", prop, id>>)
+Masked(id, prop, sig) == id \in KnownFindings /\ sig /\ (Notes => PrintT(<<"KNOWN-FINDING", prop, id>>))
 
 Writes(e)         == SeqToSet(e.writes)
 PodWrites(e, v)   == { w \in Writes(e) : w.kind = "Pod" /\ w.verb = v }
@@ -145,13 +145,15 @@ C04_OthersServed(s, e, d, r, role) ==
           \/ p \notin OwnPods(s, d)
           \/ \A a \in ActiveRS(s, d) : ~Fits(s, p.node, a.tmpl)
           \/ KP(s, d, p.node) # {p}
+          \/ FailedOn(s, d, p.node) # {}          \* a failed pod held back by the back-off takes part in the de-duplication
           \/ Masked("F-narrowing", "C04", role = "canary" /\ ~Fits(s, p.node, r.tmpl))
 
 \* canary label: every pod of the canary RS the sync read on a canary node gets (or has) the label ...
 C04_LabelOn(s, e, d, r, role) ==
     (role = "canary" /\ FullSync(e) /\ AllOK({ w \in Writes(e) : w.kind = "Pod" /\ w.verb = "patch" })) =>
       \A p \in OwnPods(s, d) :
-        (p.rsl = r.id /\ p.node \in CNodes(d) /\ Fits(s, p.node, r.tmpl) /\ Countable(p) /\ KP(s, d, p.node) = {p} /\ ~p.clabel)
+        (p.rsl = r.id /\ p.node \in CNodes(d) /\ Fits(s, p.node, r.tmpl) /\ Countable(p) /\ KP(s, d, p.node) = {p} /\ ~p.clabel /\ ~p.term
+           /\ FailedOn(s, d, p.node) = {})
           => (NT(<<"C04", "label+">>) /\ \E w \in PodWrites(e, "patch") : w.id = p.id /\ w.what = "+clabel")
 
 \* ... and loses it once the replica set has become active (the code cleans up during the first 5 units)
